@@ -202,7 +202,9 @@ def generate(st):
         'faulty': sw.random() < 0.6,
         'off': sorted(sw.sample(OPS[4:35], sw.randint(0, 8))),
         'reenter': sw.random() < 0.3,          # user functions called back by the library use the library themselves
+        'locality': sw.choice([0.0, 0.0, 0.4, 0.7]),     # probability that an operation works on the same table as the one before
     }
+    _LAST[0] = None
     FILTER_DICTS.clear()
     REAL_FILTER_DICTS.clear()
     cells = [CELLS[i] for i in cfg['cells']]
@@ -247,6 +249,7 @@ def generate(st):
         return names[-1]
 
     tries = 0
+    last_read = {}
     while len(ops) < cfg['n_ops'] and tries < cfg['n_ops'] * 6:
         tries += 1
         o = pick_op() if models else g.choice(['new_records', 'new_columns', 'new_rows'])
@@ -260,13 +263,39 @@ def generate(st):
         out = model_apply(op, models)
         if out[0] == 'skip':
             continue
+        n_before = len(models)
         _pool_update(models, op, out, None)
+        shifted = 1 if (out[0] in ('table', 'alias') and n_before == len(models)) else 0       # a full pool drops its oldest table
+        if isinstance(op.get('t'), int):
+            _LAST[0] = op['t'] - shifted
         ops.append(op)
+        # the same question asked before and after a change: a read of table t is repeated right after t was changed in place
+        if shifted:
+            last_read = {t_ - 1: o_ for t_, o_ in last_read.items() if t_ >= 1}
+        if op['op'] in READS and isinstance(op.get('t'), int):
+            last_read[op['t'] - shifted] = op
+        elif op['op'] in ('setitem', 'setitem_from', 'update', 'update_from', 'delitem', 'iadd', 'add_record') and op.get('t') in last_read and g.random() < 0.35:
+            again = dict(last_read[op['t']], t=op['t'])
+            again.pop('reenter', None)
+            out2 = model_apply(again, models)
+            if out2[0] != 'skip':
+                n2 = len(models)
+                _pool_update(models, again, out2, None)
+                if out2[0] in ('table', 'alias') and n2 == len(models):
+                    last_read = {t_ - 1: o_ for t_, o_ in last_read.items() if t_ >= 1}
+                    _LAST[0] = (_LAST[0] - 1) if _LAST[0] else None
+                ops.append(again)
     return {'prop': PROP, 'cfg': cfg, 'ops': ops}
+
+
+READS = ('row', 'col', 'cols_tuple', 'slice', 'mask', 'take', 'project', 'inc', 'exc', 'inc_all', 'apply', 'sum_rows', 'copy')
+_LAST = [None]      # generator state: the table the previous operation worked on (histories stay with one table for a while)
 
 
 def _gen_op(o, g, f, cfg, cells, cols, models, rows_n, cell, spec_for):
     def slot():
+        if cfg.get('locality') and _LAST[0] is not None and 0 <= _LAST[0] < len(models) and g.random() < cfg['locality']:
+            return _LAST[0]
         return g.randrange(len(models))
 
     def slot_with_cols():
